@@ -119,7 +119,17 @@ pub fn build_builder(
         };
         match op {
             Op::Barrier => {
-                guard(catch_unwind(AssertUnwindSafe(|| b.add_barrier())))?;
+                // both API styles are exercised: `add_*` on even op positions, the chaining
+                // `with_*` on odd ones
+                if i % 2 == 0 {
+                    guard(catch_unwind(AssertUnwindSafe(|| b.add_barrier())))?;
+                } else {
+                    let taken = std::mem::take(&mut b);
+                    b = match catch_unwind(AssertUnwindSafe(|| taken.with_barrier())) {
+                        Ok(nb) => nb,
+                        Err(p) => return guard(Err(p)).map(|_| Builder::new()),
+                    };
+                }
             }
             Op::Tl { reads, writes } => {
                 let idx = bi.op_sys[i].unwrap();
@@ -131,7 +141,15 @@ pub fn build_builder(
                     provide: opts.provide,
                     _not_send: Rc::new(()),
                 };
-                guard(catch_unwind(AssertUnwindSafe(|| b.add_thread_local(sys))))?;
+                if i % 2 == 0 {
+                    guard(catch_unwind(AssertUnwindSafe(|| b.add_thread_local(sys))))?;
+                } else {
+                    let taken = std::mem::take(&mut b);
+                    b = match catch_unwind(AssertUnwindSafe(|| taken.with_thread_local(sys))) {
+                        Ok(nb) => nb,
+                        Err(p) => return guard(Err(p)).map(|_| Builder::new()),
+                    };
+                }
             }
             Op::Sys {
                 name,
@@ -158,7 +176,15 @@ pub fn build_builder(
                             },
                             rt: *rt,
                         };
-                        guard(catch_unwind(AssertUnwindSafe(|| b.add(sys, name, &dr))))?;
+                        if i % 2 == 0 {
+                            guard(catch_unwind(AssertUnwindSafe(|| b.add(sys, name, &dr))))?;
+                        } else {
+                            let taken = std::mem::take(&mut b);
+                            b = match catch_unwind(AssertUnwindSafe(|| taken.with(sys, name, &dr))) {
+                                Ok(nb) => nb,
+                                Err(p) => return guard(Err(p)).map(|_| Builder::new()),
+                            };
+                        }
                     }
                     Kind::Static(k) => {
                         with_fam!(*k, F, {
@@ -200,9 +226,19 @@ pub fn build_builder(
                                 rt: *rt,
                                 _f: PhantomData,
                             };
-                            guard(catch_unwind(AssertUnwindSafe(|| {
-                                b.add_batch(c, inner_b, name, &dr)
-                            })))?;
+                            if i % 2 == 0 {
+                                guard(catch_unwind(AssertUnwindSafe(|| {
+                                    b.add_batch(c, inner_b, name, &dr)
+                                })))?;
+                            } else {
+                                let taken = std::mem::take(&mut b);
+                                b = match catch_unwind(AssertUnwindSafe(|| {
+                                    taken.with_batch(c, inner_b, name, &dr)
+                                })) {
+                                    Ok(nb) => nb,
+                                    Err(p) => return guard(Err(p)).map(|_| Builder::new()),
+                                };
+                            }
                         }
                         Ctl::Multi { planned } => {
                             let c = MultiDispatcher::new(MultiCtl::<F> {
